@@ -28,6 +28,7 @@ func register(r *Rule) {
 type options struct {
 	prop, tier, repo, verif, only, replay string
 	noFixture, list, dump, noEvidence     bool
+	genSymbols                            bool
 	expect                                string
 }
 
@@ -43,6 +44,7 @@ func main() {
 	flag.BoolVar(&o.noFixture, "nofixture", false, "skip fixture self-test")
 	flag.BoolVar(&o.list, "list", false, "list properties and rules")
 	flag.BoolVar(&o.dump, "dump", false, "print every obligation")
+	flag.BoolVar(&o.genSymbols, "gen-symbols", false, "write checker/symbols.json (the index used to re-identify renamed functions and fields) from the tree at -repo and exit")
 	flag.BoolVar(&o.noEvidence, "noevidence", false, "do not write the evidence file (used when analysing a modified tree)")
 	flag.Parse()
 	if env := os.Getenv("VERIF_TIER"); env != "" && !isFlagSet("tier") {
@@ -118,6 +120,20 @@ func fixturePath(o options) (string, []byte) {
 
 func run(o options) int {
 	start := time.Now()
+	if o.genSymbols {
+		p, err := Load(LoadOpts{Dir: o.repo})
+		if err != nil {
+			fmt.Fprintln(os.Stderr, err)
+			return 2
+		}
+		out := filepath.Join(o.verif, "checker", "symbols.json")
+		if err := writeSymbols(p, out); err != nil {
+			fmt.Fprintln(os.Stderr, err)
+			return 2
+		}
+		fmt.Println("wrote", out)
+		return 0
+	}
 	seed := 0
 	if s := os.Getenv("VERIF_SEED"); s != "" {
 		seed, _ = strconv.Atoi(s)
@@ -173,7 +189,7 @@ func run(o options) int {
 	realCh := make(chan runResult, 1)
 	fixCh := make(chan runResult, 1)
 	go func() {
-		p, err := Load(LoadOpts{Dir: o.repo})
+		p, err := Load(LoadOpts{Dir: o.repo, Verif: o.verif})
 		if err != nil {
 			realCh <- runResult{err: err}
 			return
@@ -184,7 +200,7 @@ func run(o options) int {
 	doFixture := !o.noFixture && fxSrc != nil
 	if doFixture {
 		go func() {
-			p, err := Load(LoadOpts{Dir: o.repo, Overlay: map[string][]byte{fxPath: fxSrc}, Fixture: fxPath})
+			p, err := Load(LoadOpts{Dir: o.repo, Overlay: map[string][]byte{fxPath: fxSrc}, Fixture: fxPath, Verif: o.verif})
 			if err != nil {
 				fixCh <- runResult{err: err}
 				return
